@@ -100,6 +100,40 @@ func c11Scenarios() []lncScen {
 		{"pair-reconnect", lncrun.Options{}, pairReconnect},
 		{"prepaired-reconnect", lncrun.Options{PrePaired: true}, pairReconnect},
 		{"v1-reconnect", lncrun.Options{V1: true}, pairReconnect},
+		// an older server (handshake version 1 at most) and a current client:
+		// version 1 is negotiated, no keys are kept, every reconnect pairs
+		// again at the passphrase rendezvous
+		{"older-server-reconnect", lncrun.Options{SrvV1: true}, pairReconnect},
+		{"corrupted-handshake-then-retry", lncrun.Options{PrePaired: true}, func(s *lncrun.Session, x *lncExpect) {
+			// the relay corrupts the start of act two of the first handshake
+			// of a reconnect: the client aborts in the middle of the act
+			// (most of it unread) and closes; the next attempt, over an
+			// intact relay, must work
+			s.Serve()
+			c, sc := x.connect(1)
+			if c == nil {
+				return
+			}
+			x.exchange(c, sc, 100)
+			c.Close("script")
+			x.check("the peer of a closed connection goes down", sc.AwaitDown(30*time.Second))
+			done := false
+			s.Relay.Decide = func(sid string, idx int, msg []byte) (f relay.Fate) {
+				if !done && s.SidName(sid) == "K" && len(msg) > 40 && msg[0] == 0x02 && msg[3] == 0 { // first DATA s->c
+					done = true
+					// the first byte of the act (after the 4-byte GBN and the
+					// 5-byte control-message header): the client rejects it
+					// at once, with the rest of the act still unread
+					f.Replace = append([]byte(nil), msg...)
+					f.Replace[9] ^= 0x40
+				}
+				return
+			}
+			c2, sc2 := x.connect(2)
+			if c2 != nil {
+				x.exchange(c2, sc2, 100, 3000)
+			}
+		}},
 		{"second-client", lncrun.Options{}, func(s *lncrun.Session, x *lncExpect) {
 			// after the pairing a second client that knows the passphrase
 			// dials: while the first connection is open, and across the
@@ -303,7 +337,7 @@ func TestC11Sessions(t *testing.T) {
 					s.Rec.Emit("harnessNote", "what", "scenario did not finish")
 				}
 				ev := append([]trace.Event{{"ev": "reset", "scen": sc.name,
-					"prepaired": b2i(sc.opts.PrePaired), "v1": b2i(sc.opts.V1)}}, s.Rec.Events()...)
+					"prepaired": b2i(sc.opts.PrePaired), "v1": b2i(sc.opts.V1 || sc.opts.SrvV1)}}, s.Rec.Events()...)
 				mu.Lock()
 				outs = append(outs, out{ev, map[string]any{"scen": sc.name, "rep": rep}})
 				mu.Unlock()
